@@ -47,6 +47,9 @@ class Prop(common.PropertyCheck):
             yield {'N': rng.choice([3, 7, 40]), 'D': rng.randrange(3, 7), 'data': rng.choice(['spread', 'modal', 'ties']),
                    'cont': ['sample', 'sample_rfi', 'sample_reordered'][i % 3], 'chform': ['perm', 'list', 'zigzag', 'repeat'][i % 4], 'seed': rng.randrange(1 << 30), 'reuse': True}
 
+        for i in range(self.budget(16, 150)):
+            yield {'N': rng.choice([7, 40]), 'D': rng.randrange(2, 5), 'data': ['spread', 'modal', 'bright'][i % 3], 'cont': ['array_float', 'sample_rfi', 'sample_mef'][i % 3],
+                   'chform': ['pos', 'list', 'name', 'none'][i % 4], 'seed': rng.randrange(1 << 30), 'inplace': True}
         # relative dispersions do not depend on the units: tiny and huge magnitudes; channels without signal (0/0 is not a number)
         for i in range(self.budget(24, 300)):
             yield {'N': rng.choice([7, 40, 400]), 'D': rng.randrange(2, 5), 'data': ['spread', 'modal', 'spread'][i % 3], 'cont': 'array_float',
@@ -206,6 +209,20 @@ class Prop(common.PropertyCheck):
                 out['plain'][st] = [float(x) for x in np.atleast_1d(np.asarray(pv, dtype=float))]
             except Exception as e:
                 out['plain'][st] = 'err:' + type(e).__name__
+        # the events of the same object changed in place, then the geometric statistics asked again with the same channel argument
+        if case.get('inplace') and np.issubdtype(plain.dtype, np.floating):
+            try:
+                for st in ('gstd', 'gcv', 'gmean', 'std', 'iqr'):
+                    getattr(FlowCal.stats, st)(d, ch) if ch is not None else getattr(FlowCal.stats, st)(d)
+                arr = np.asarray(d)
+                arr[:, cols[0]] = arr[:, cols[0]] * 3.0 + 250.0          # a view: the object itself changes
+                out['after_inplace'] = {}
+                for st in ('gstd', 'gcv', 'gmean', 'std', 'iqr'):
+                    v = getattr(FlowCal.stats, st)(d, ch) if ch is not None else getattr(FlowCal.stats, st)(d)
+                    pv = getattr(FlowCal.stats, st)(np.array(arr[:, cols[0]], dtype=float).copy())
+                    out['after_inplace'][st] = [float(np.atleast_1d(np.asarray(v, dtype=float))[0]), float(pv)]
+            except Exception as e:
+                out['after_inplace'] = 'raised %s: %s' % (type(e).__name__, str(e)[:60])
         return out
 
     def post(self):
@@ -223,6 +240,12 @@ class Prop(common.PropertyCheck):
             p = impl['plain'][st]
             if isinstance(p, str) or len(p) != len(r) or any(struct.pack('<d', a) != struct.pack('<d', b) and not (math.isnan(a) and math.isnan(b)) for a, b in zip(r, p)):
                 return '%s: %s with channels=%s gives %s, the plain-array position form gives %s' % (st, case['cont'], case['chform'], r, p)
+        ai = impl.get('after_inplace')
+        if isinstance(ai, str):
+            return 'statistics after an in-place change of the events: %s' % ai
+        for st, (got, want) in sorted((ai or {}).items()):
+            if not close(got, want, 1e-9) and not (math.isnan(got) and math.isnan(want)):
+                return '%s asked again after the events of the same object were changed in place is %r, the current values give %r' % (st, got, want)
         # textbook definitions per column
         for j, colbits in enumerate(impl['cols']):
             xs = [struct.unpack('<d', struct.pack('<Q', b))[0] for b in colbits]
